@@ -62,7 +62,9 @@ def gen_points(rng, a, b):
     kind = rng.choice(['scatter', 'scatter', 'grid2d', 'default'])
     pts = {'kind': kind, 'seed': rng.getrandbits(32), 'edges': rng.random() < 0.5,
            'layout': rng.choice(['C', 'C', 'F', 'T', 'strided']),
-           'dtype': rng.choice(['float64', 'float64', 'float32', 'int', 'list'])}
+           'dtype': rng.choice(['float64', 'float64', 'float32', 'int', 'list']),
+           'dtype_y': rng.choice([None, None, 'float64', 'float32', 'int']),
+           'corner_last': rng.random() < 0.5, 'then_default': rng.random() < 0.4}
     if kind == 'scatter':
         pts['n'] = rng.choice([1, 2, 3, 5, 7, 11, 13, 17, 31, 64, 97, 101, 127, 200, rng.randint(1, 200)])
     elif kind == 'grid2d':
@@ -205,6 +207,11 @@ def shrink_candidates(scen):
         c = copy.deepcopy(scen)
         c['points']['layout'] = 'C'
         yield c
+    for key, val in (('dtype', 'float64'), ('dtype_y', None), ('then_default', False), ('corner_last', False)):
+        if pts.get(key, val) != val:
+            c = copy.deepcopy(scen)
+            c['points'][key] = val
+            yield c
     if scen['c']['kind'] != 'single-w':
         c = copy.deepcopy(scen)
         c['c']['kind'] = 'single-w'
@@ -293,15 +300,21 @@ def make_points(pts, a, b):
             if i < k and rng.random() < 0.6:
                 j = int(rng.integers(0, k))
                 flat_x[j], flat_y[j] = ex, ey
+    if pts.get('corner_last'):
+        xs.reshape(-1)[-1], ys.reshape(-1)[-1] = a, b      # a point set that ends at the far corner, like a grid does
     dt = pts.get('dtype', 'float64')
-    if dt == 'float32':
-        xs, ys = xs.astype(np.float32), ys.astype(np.float32)
-    elif dt == 'int':
-        # integer coordinates inside the domain (0, 1, 2, ... <= a)
-        xs = np.minimum(np.floor(xs), np.floor(a)).astype(np.int64)
-        ys = np.minimum(np.floor(ys), np.floor(b)).astype(np.int64)
-    elif dt == 'list' and xs.ndim == 1:
+    dty = pts.get('dtype_y') or dt
+    if dt == 'list' and xs.ndim == 1:
         return [float(v) for v in xs], [float(v) for v in ys]
+
+    def cast(arr, kind, lim):
+        if kind == 'float32':
+            return arr.astype(np.float32)
+        if kind == 'int':
+            # integer coordinates inside the domain (0, 1, 2, ... <= lim)
+            return np.minimum(np.floor(arr), np.floor(lim)).astype(np.int64)
+        return arr
+    xs, ys = cast(xs, dt, a), cast(ys, dty if dty != 'list' else 'float64', b)
     return relayout(xs, pts.get('layout', 'C')), relayout(ys, pts.get('layout', 'C'))
 
 
@@ -546,6 +559,36 @@ def execute(scen):
             ctx = {'host': 'panel', 'model': d['model']}
             run_panel_like(scen, res, log, p, caller, c, gx, gy, dofs, p.r, Fgiven if Fgiven is not None else F,
                            set_workers, ctx)
+            if pts['kind'] == 'grid2d' and pts.get('then_default') and xs is not None:
+                # a default-grid query right after an explicit 2-D query of the same shape on the same object:
+                # nothing of the previous point set may be reused
+                gy_n, gx_n = np.asarray(xs).shape
+                dgx, dgy = default_grid(p.a, p.b, gx_n, gy_n)
+                p.out_num_cores = scen['workers'][0]
+                refs3, wrongs3 = reference_for(p, c, dgx, dgy, dofs, p.r, scen['NLterms'], F)
+                for q in scen['calls']:
+                    if q != 'uvw' and (dofs != 3 or 'kpanel' in d['model']):
+                        continue
+                    if q == 'uvw':
+                        got3 = dict(zip(UVW, p.uvw(c, gridx=gx_n, gridy=gy_n)))
+                        names3, key3 = UVW, 'uvw'
+                    elif q == 'strain':
+                        got3 = p.strain(c, gridx=gx_n, gridy=gy_n, NLterms=scen['NLterms'])
+                        names3, key3 = STRAINS, ('strain', scen['NLterms'])
+                        same_bytes('x', got3['x'], dgx, 'G8-default-grid', dict(ctx, why='x returned for the default grid is not the default grid'))
+                    else:
+                        if Fgiven is not None:
+                            continue
+                        got3 = p.stress(c, gridx=gx_n, gridy=gy_n, NLterms=scen['NLterms'])
+                        names3, key3 = STRESSES, ('stress', scen['NLterms'])
+                    try:
+                        check_against_reference(q, names3, got3, refs3[key3], wrongs3.get(key3),
+                                                dict(ctx, quantity_call=q, after='explicit 2-D points of the same shape'), res)
+                    except Violation as v:
+                        if not getattr(v, 'known_id', None):
+                            v.invariant = 'G8-default-grid'
+                        raise
+                bump(res['probes'], 'G8_default_after_explicit_checked')
             rl = scen.get('redefine_lam')
             if rl and dofs == 3 and 'kpanel' not in d['model']:
                 import compmech.composite.laminate as laminate
